@@ -200,7 +200,7 @@ let () =
       let l = List.sort compare (List.map (fun (d, c) ->
           Printf.sprintf "%s/%s/%d/%s" (hex_of_str d.d_mt) (hex_of_str d.d_dg) (int_of_z d.d_sz) (digest_str c)) !st) in
       Printf.printf "%s %sB=%s\n" id (Buffer.contents buf) (match l with [] -> "-" | l -> String.concat ";" l)
-    | id :: "CC" :: hs :: "oci" :: n :: rest when int_of_string n <= 3 && List.mem "OBS" rest ->
+    | id :: "CC" :: hs :: ("oci" | "ocistore") :: n :: rest when int_of_string n <= 3 && List.mem "OBS" rest ->
       (* concurrent pushes into one OCI layout: is the observed outcome (per-goroutine results,
          blobs/ listing, files left in ingest/) one of the model's reachable terminal outcomes? *)
       let h = mk_h (parse_hashes hs) in
